@@ -82,7 +82,7 @@ pub trait PieLike {
 }
 
 impl<A: Tracker + EvDebug> PieLike for Pie<A> {
-  fn state_mut(&mut self) -> &mut VState { self.resource_state_mut::<VRes>().get_or_set_default_mut::<VState>() }
+  fn state_mut(&mut self) -> &mut VState { let st = self.resource_state_mut::<VRes>().get_or_set_default_mut::<VState>(); interp::apply_pending(st); st }
   fn session<R>(&mut self, f: impl FnOnce(&mut pie::Session) -> R) -> R {
     let mut s = self.new_session();
     f(&mut s)
@@ -160,13 +160,21 @@ pub fn run_on<P: PieLike>(mut pie: P, case: &Case, opts: &Opts) -> Run {
         // per-build state is reconstructed from the writer log below.
         let arm_now = std::mem::take(&mut arm);
         let mut first_build = true;
+        // External changes made while the session is open: logged at the start of the next build's range.
+        let mut queued: Vec<(ResId, Option<Val>)> = vec![];
+        let mut tail_changes: Vec<(ResId, Option<Val>)> = vec![];
         pie.session(|s| {
           for b in &plan {
+            let flush = |queued: &mut Vec<(ResId, Option<Val>)>| {
+              for (r, val) in queued.drain(..) { interp::log(L::ExtChange { r, val }); interp::with_cx(|c| c.pending_ext.push((r, val))); }
+            };
             match b {
+              Build::Change { res, val } => { queued.push((*res, *val)); }
               Build::TopDown(t) => {
                 let armed = if first_build { arm_now } else { 0 };
                 first_build = false;
                 let start = interp::log_len();
+                flush(&mut queued);
                 interp::with_cx(|c| { c.countdown = armed; c.ops = 0; });
                 let r = guarded(|| s.require(&Tk(*t)));
                 let ops = interp::with_cx(|c| { c.countdown = 0; c.ops });
@@ -182,6 +190,7 @@ pub fn run_on<P: PieLike>(mut pie: P, case: &Case, opts: &Opts) -> Run {
                 let armed = if first_build { arm_now } else { 0 };
                 first_build = false;
                 let start = interp::log_len();
+                flush(&mut queued);
                 interp::with_cx(|c| { c.countdown = armed; c.ops = 0; });
                 let r = guarded(|| {
                   let mut bu = s.create_bottom_up_build();
@@ -212,7 +221,14 @@ pub fn run_on<P: PieLike>(mut pie: P, case: &Case, opts: &Opts) -> Run {
               }
             }
           }
+          tail_changes = std::mem::take(&mut queued);
         });
+        // Changes after the last build of the session are ordinary between-session changes.
+        for (r, val) in tail_changes {
+          let st = pie.state_mut();
+          match val { Some(v) => { st.map.insert(r, v % 4); } None => { st.map.remove(&r); } }
+          if !changed.contains(&r) { changed.push(r); }
+        }
         // Reconstruct the resource state after each build from the writer log (RSet entries are the only mutations).
         let mut st = state_before.clone();
         interp::with_cx(|c| {
@@ -220,6 +236,9 @@ pub fn run_on<P: PieLike>(mut pie: P, case: &Case, opts: &Opts) -> Run {
             for l in &c.log[b.log.clone()] {
               if let L::RSet { r, val, .. } = l {
                 match val { Some(v) => { st.insert(*r, *v); } None => { st.remove(r); } }
+              }
+              if let L::ExtChange { r, val } = l {
+                match val { Some(v) => { st.insert(*r, *v % 4); } None => { st.remove(r); } }
               }
             }
             b.state_after = st.clone();
